@@ -12,6 +12,7 @@ claimed = {
  "C14": ("bit-field extraction: GetBitsAsUint64 and GetBitsAsInt64 verified in bit-vector mode (exact Go shift/mask/wrap semantics) against the bitwise statement of the property; the loop is covered by an inductive invariant with a complete 65-way case split on the iteration number; 1016 bridge lemmas tie the bitwise contract to the byte-arithmetic reading used by all int-mode callers", "6 C14"),
  "C05": ("1005/1006: GetMessage postconditions give every field as the bit field of the property's layout (signed fields as two's complement over the full 38-bit range) and the exact acceptance condition (length and type); the display clause is an argument-flow obligation at the Sprintf call: the value reaching each %.4f verb is within 1e-6 of integer x 0.0001 in the floating-point rounding model", "6 C05"),
  "C18": ("recent-message queue: representation invariant (keys form the interval of the last n sequence numbers, n <= capacity) and a ghost history of all additions; NewCircularQueue establishes it, Add preserves it and states the whole new view (count min(n+1,N), new message at the new sequence number, every other held message unchanged), GetMessages returns exactly the held messages in sequence order; unbounded in capacity and history; the concurrent clause is a whole-program lock-discipline obligation (guarded fields only under the RWMutex, not touched outside the package) plus the assumption that RWMutex gives mutual exclusion", "6 C18"),
+ "C19": ("proxy: both relay loops are proved against prophecy connections (any chunking, errors anywhere, data together with an error) and ghost write logs - at every iteration the bytes written to the peer are exactly the bytes read, in order, independent of content; the client-side loop also sends the same bytes to the parser channel, and the frame obligations show that recording a chunk for the report and parsing cannot change it before it is forwarded; the status page is covered by argument-flow obligations at the final Sprintf: the two hex dumps and the message list reach the constant template free of '<' and '>' (Sanitise contract over assumed strings.Replace, loop invariant over the message list), and by the lock-held structural obligation on the report feed's buffers.  TCP/TLS behaviour, the HTTP layer of statusreporter, liveness when the parser stalls, and behaviour after a failed Write are not decided", "6 C19"),
  "C20": ("classification: package initialisation establishes the two MSM maps exactly (global-init obligations) and nothing else writes them (whole-program structural obligation); MSM4/MSM7/MSM, GetConstellation, getMSMType, the four decoders' type rejection, GetMessage's timestamp guard, Analyse's dispatch and GetTitleAndComment's non-empty title are postconditions over a symbolic message type, i.e. for all integers", "6 C20"),
  "C06": ("UTC conversion across rollovers: one inductive step over ghost truth (start time T, per constellation the true time u of the last accepted observation and a seen flag): New establishes the relation between the handler's week starts / previous timestamps and the truth, and GetMessage preserves it while reporting exactly the true time and week start for every timestamp that encodes a time satisfying the property's hypotheses; illegal timestamps give an error and leave the state untouched; the other constellations' state is framed; all start times, zones (through In(UTC)), histories and interleavings are covered by the induction", "6 C06"),
  "C15": ("determinism / no hidden state over the whole framing-decoding-display cone (59 functions under contract): every function's frame is proved (only the locations in its modifies clause change: decoders change nothing that existed before the call, Analyse / PrepareForDisplay / String change only their own message, no function stores into the bytes of RawData), a second String call leaves the message exactly as it is, and two whole-program structural obligations exclude hidden state (no package variable written outside package initialisers, every one read is init-only) and nondeterminism sources (goroutines, select, map iteration, clock, random) in the cone; that equal inputs give equal results then follows because every function is a deterministic function of its arguments", "6 C15"),
@@ -33,7 +34,7 @@ NOTE = ("Assumes: the VC generator and SMT solvers; 64-bit int; assumed contract
 not_applicable = {
 }
 
-pending = ["C04","C19"]
+pending = ["C04"]
 
 def main():
     checks = []
